@@ -54,6 +54,43 @@ func ruleGzipWholeBody(r *Run) {
 			}
 		})
 	}
+	// … and the decompressed message is read to its end, not for a byte count taken from somewhere else (the size
+	// field of a gzip trailer describes the last member only)
+	for _, fn := range p.ModuleFuncs() {
+		fn := fn
+		var dec []ssa.Value
+		eachInstr(fn, func(in ssa.Instruction) {
+			if c, ok := in.(*ssa.Call); ok && c.Call.IsInvoke() && c.Call.Method.Name() == "Decompress" {
+				if ex := extractOf(c, 0); ex != nil {
+					dec = append(dec, ex)
+				}
+			}
+		})
+		if len(dec) == 0 {
+			continue
+		}
+		eachInstr(fn, func(in ssa.Instruction) {
+			c, ok := in.(*ssa.Call)
+			if !ok {
+				return
+			}
+			switch calleeName(c) {
+			case "io.CopyN", "io.ReadFull", "io.ReadAtLeast":
+			default:
+				return
+			}
+			for _, a := range c.Call.Args {
+				for _, o := range p.origins(a, originOpts{local: true, throughConvert: true, throughAssert: true}) {
+					for _, d := range dec {
+						if o == d {
+							bad++
+							r.bad(fmt.Sprintf("%s/fixed-count-read#%d", shortFunc(fn), bad), in.Pos(), "the decompressed message is read for a fixed number of bytes (%s) instead of to the end of the stream: where that count comes from the compressed data itself (the size field of the gzip trailer) a frame made of several gzip members is cut to the size of its last member - a truncated or rejected message", shortName(calleeName(c)))
+						}
+					}
+				}
+			}
+		})
+	}
 	if n == 0 {
 		r.undecided("gzip readers", token.NoPos, "no gzip reader construction found")
 	} else if bad == 0 {
